@@ -133,7 +133,7 @@ func vUDPInbound(big bool) {
 // Two datagrams in a row: the attribution of the second must not depend on the first (no state kept
 // between datagrams): peers that share an IP but differ in port, one bound to a channel.
 //
-//verif:props=C05,C02 unwind=20 bounds="allocation with one channel binding; two datagrams (0..4 bytes) from arbitrary IPv4 sources, in particular the bound peer followed by the same IP on another port"
+//verif:props=C05,C02,C06 unwind=20 bounds="allocation with one channel binding; two datagrams (0..4 bytes, empty ones included) from arbitrary IPv4 sources, in particular the bound peer followed by the same IP on another port"
 func VerifHarness_C05_two_datagrams() {
 	env := VNewManager(false, false)
 	m := env.M
@@ -160,6 +160,8 @@ func VerifHarness_C05_two_datagrams() {
 	}
 	vAssert(len(turnA.Writes) == want, "C02.each_authorised_datagram_forwarded_once")
 	vAssert(len(turnA.Writes) == want, "C05.each_datagram_forwarded_exactly_once")
+	vAssert(len(turnA.Writes) == want, "C06.no_datagram_ends_the_allocation_early") // (an empty datagram is a datagram, not a socket failure)
+	vAssert(env.Relays[0].ReadPos == 2, "C06.relay_loop_reads_on_after_every_datagram")
 	// look at how the second datagram was forwarded
 	if perm2 {
 		w := turnA.Writes[want-1]
